@@ -274,6 +274,14 @@ func GenPlan(prop string, seed uint64) *Plan {
 	g := newGen(seed, 1)
 	pr := profileFor(prop)
 	p := &Plan{Version: 1, Property: prop, Seed: seed, Inner: g.u64(), World: "consensus"}
+	if prop == "C01" && mix(seed, 0x756e616e)%100 < 4 {
+		// the second script of the lockless attack; drawn beside g, so that every other seed keeps its plan
+		p = genLocklessAttack(g, p)
+		p.Ruleset = "chainedhotstuff"
+		p.Knobs["llMode"] = 1
+		p.PrefixScript = nil
+		return p
+	}
 	if prop == "C01" && g.p(0.04) {
 		return genLocklessAttack(g, p)
 	}
@@ -533,7 +541,15 @@ func GenPlan(prop string, seed uint64) *Plan {
 			p.Links.Drop = 0.08
 		}
 	}
-	if (prop == "C02" || prop == "C09") && p.knob("kauri", 0) == 0 && len(p.Byz) > 0 && p.Crypto == "bls12" && p.N >= 4 && mix(p.Inner, 0x726f6775)%2 == 0 {
+	if (prop == "C02" || prop == "C11") && len(p.Byz) > 0 && p.Crypto == "bls12" && mix(p.Inner, 0x67686f74)%4 == 0 {
+		// BLS certificates of fewer than a quorum whose bit field is filled up with replicas that do not exist
+		p.Byz[0].Kind, p.Byz[0].Acts, p.Byz[0].Rate = "script", []string{"subquorum"}, 1.0
+		if p.Knobs == nil {
+			p.Knobs = map[string]int{}
+		}
+		p.Knobs["ghost"] = 1
+	}
+	if (prop == "C02" || prop == "C09") && p.knob("ghost", 0) == 0 && p.knob("kauri", 0) == 0 && len(p.Byz) > 0 && p.Crypto == "bls12" && p.N >= 4 && mix(p.Inner, 0x726f6775)%2 == 0 {
 		// rogue-key attack on BLS aggregation: one Byzantine replica is configured with g1^x - pk(victim) and the
 		// victim's proof of possession, and forges certificates from q-2 genuine votes
 		p.Byz = p.Byz[:1]
@@ -554,7 +570,7 @@ func GenPlan(prop string, seed uint64) *Plan {
 			p.Leader, p.Script = "round-robin", nil
 		}
 	}
-	if prop == "C02" && len(p.Byz) > 0 && (p.Ruleset == "fasthotstuff" || p.Knobs["aggqc"] == 1) && p.Crypto == "bls12" && p.knob("roguekey", 0) == 0 && mix(p.Inner, 0x6c6f6e65)%2 == 0 {
+	if prop == "C02" && len(p.Byz) > 0 && (p.Ruleset == "fasthotstuff" || p.Knobs["aggqc"] == 1) && p.Crypto == "bls12" && p.knob("roguekey", 0) == 0 && p.knob("ghost", 0) == 0 && mix(p.Inner, 0x6c6f6e65)%2 == 0 {
 		// BLS aggregates whose bit field names replicas that are not in the configuration (or that did not sign), with
 		// an entry for each of them: one genuine signer
 		p.Byz[0].Kind, p.Byz[0].Acts, p.Byz[0].Rate = "script", []string{"agglone", "aggswap"}, 1.0
@@ -735,6 +751,9 @@ func genForgeForkAttack(g *gen, p *Plan) *Plan {
 		rest[i], rest[j] = rest[j], rest[i]
 	}
 	p.Knobs = map[string]int{"ffA": rest[0], "ffB": rest[1], "ffKind": g.intn(10)}
+	if p.Crypto == "bls12" && mix(p.Inner, 0x67686f73)%3 == 0 {
+		p.Knobs["ffKind"] = 10 // ghost signers exist for BLS bit fields only
+	}
 	p.Leader = "scripted"
 	p.Script = []int{z}
 	p.UntilMs = 60
